@@ -6,6 +6,11 @@ shape disagrees with the axes, and duplicate dimension names, are rejected.
 import DimModel.Lib.Init
 import DimModel.Props.C01
 import DimModel.Props.C07
+import DimModel.Proofs.C05WF
+import DimModel.Proofs.C05WFDs
+import DimModel.Proofs.C04String
+import DimModel.Props.C10
+import DimModel.Props.C11
 namespace DimModel
 open Lib
 
@@ -278,5 +283,622 @@ example : appendAll [mkAxis "x" ([.num 1], .i), mkAxis "y" ([], .f)] = .ok [mkAx
   constructor
   · rw [appendAll_ok_iff]; decide
   · apply appendAll_rejects_duplicates; decide
+
+
+/-! ## the complete family: every mirror function that returns an array (or arrays) preserves well-formedness
+
+`DimArray.WF` (Core/Basic) is the whole of C05's first sentence: the values have the shape the axes announce (one
+axis per dimension, of the matching size), the dimension names are distinct and non-empty.  Each theorem below
+says: if the inputs are well-formed and the call SUCCEEDS, the result is well-formed - for every argument, with no
+bound on rank, sizes or labels.  The proofs are in `Proofs/C05WF.lean` (arrays) and `Proofs/C05WFDs.lean`
+(Datasets); `WF` is split there into `ShapeOK` and `NamesOK`.
+
+Where a hypothesis beyond `WF` appears it is because the MIRROR returns an ill-formed array without it; each such
+case has a machine-checked counterexample below (`*_counterexample`) and is listed in the table at the end of the
+file.  In dimarray every one of these results goes through `DimArray.__init__` -> `Axes.append` / `Axis.name`
+setter / the shape check, which raise - so they are divergences of the mirror (it does not re-run the constructor's
+checks inside `flatten`, `unflatten`, `newaxis`, `stack`, `repeat`; it does not store the tuple labels of a grouped
+axis), not defects of the library. -/
+
+section preservation
+variable {α : Type}
+
+/-! ### indexing and assignment -/
+
+/-- `take` / `__getitem__` / `.loc` / `.iloc` / `.ix`, every spelling of the index (tuple, dict, `axis=`), label or
+position mode, with or without tolerance and `keepdims` -/
+theorem take_all_wf (a r : DimArray α) (ui : UserIndex) (cfg : IndexCfg) (hw : a.WF) (h : take a ui cfg = .ok r) :
+    r.WF := C05.take_wf a r ui cfg hw h
+
+theorem put_wf (a r : DimArray α) (ui : UserIndex) (rhs : RHS α) (rk : Kind) (cfg : IndexCfg) (cast : Bool)
+    (hw : a.WF) (h : put a ui rhs rk cfg cast = .ok r) : r.WF := C05.put_wf a r ui rhs rk cfg cast hw h
+
+theorem putBool_wf (a r : DimArray α) (mask : NDArr Bool) (v : α) (rk : Kind) (cast : Bool) (hw : a.WF)
+    (h : putBool a mask v rk cast = .ok r) : r.WF := C05.putBool_wf a r mask v rk cast hw h
+
+/-! ### reindexing, sorting, alignment -/
+
+theorem reindexAxis_wf (a r : DimArray α) (axis : DimKey) (newL : List Label) (nk : Kind) (fill : α) (fk : Kind)
+    (raiseErr : Bool) (method : Option Side) (hw : a.WF)
+    (h : reindexAxis a axis newL nk fill fk raiseErr method = .ok r) : r.WF :=
+  C05.reindexAxis_wf a r axis newL nk fill fk raiseErr method hw h
+
+theorem reindexLike_wf (a r : DimArray α) (tmpl : List Axis) (fill : α) (fk : Kind) (raiseErr : Bool)
+    (method : Option Side) (hw : a.WF) (h : reindexLike a tmpl fill fk raiseErr method = .ok r) : r.WF :=
+  C05.reindexLike_wf a r tmpl fill fk raiseErr method hw h
+
+theorem sortAxis_wf (a r : DimArray α) (axis : DimKey) (hw : a.WF) (h : sortAxis a axis = .ok r) : r.WF :=
+  C05.sortAxis_wf a r axis hw h
+
+/-- every output of `align` (any join, any axis, sorted or not, strict or not) -/
+theorem align_wf (nan : α) (arrays rs : List (DimArray α)) (join : Join) (axis : Option String) (sort strict : Bool)
+    (hw : ∀ a ∈ arrays, a.WF) (h : align nan arrays join axis sort strict = .ok rs) : ∀ r ∈ rs, r.WF :=
+  C05.align_wf nan arrays rs join axis sort strict hw h
+
+/-! ### arithmetic -/
+
+theorem operation_wf (nan : α) (f : α → α → α) (a b r : DimArray α) (k1 k2 : Kind) (ha : a.WF) (hb : b.WF)
+    (h : operation nan f a b = .ok (r, k1, k2)) : r.WF := C05.operation_wf nan f a b (r, k1, k2) ha hb h
+
+theorem operationNd_wf (f : α → α → α) (a r : DimArray α) (nd : NDArr α) (flip : Bool) (hw : a.WF)
+    (h : operationNd f a nd flip = .ok r) : r.WF := C05.operationNd_wf f a r nd flip hw h
+
+/-! ### transpose family -/
+
+theorem transpose_wf (a r : DimArray α) (ks : Option (List DimKey)) (hw : a.WF) (h : transpose a ks = .ok r) :
+    r.WF := C05.transpose_wf a r ks hw h
+
+theorem swapaxes_wf (a r : DimArray α) (k1 k2 : DimKey) (hw : a.WF) (h : swapaxes a k1 k2 = .ok r) : r.WF :=
+  C05.swapaxes_wf a r k1 k2 hw h
+
+theorem rollaxis_wf (a r : DimArray α) (k : DimKey) (start : Int) (hw : a.WF) (h : rollaxis a k start = .ok r) :
+    r.WF := C05.rollaxis_wf a r k start hw h
+
+/-! ### newaxis / squeeze / repeat -/
+
+/-- `newaxis(name, values, pos)`.  Extra hypotheses: the name is not the empty string (the mirror does not run the
+`Axis.name` setter: `newaxis_empty_name_counterexample`); the optional `values` are an axis without members (in
+Python `values` is an array of labels, the mirror takes an `Axis`: `repeatAxis_grouped_counterexample`) -/
+theorem newaxis_wf (a r : DimArray α) (name : String) (pos : Int) (vals : Option Axis) (hne : name ≠ "")
+    (hpl : ∀ v, vals = some v → v.members = []) (hw : a.WF) (h : newaxis a name pos vals = .ok r) : r.WF :=
+  C05.newaxis_wf a r name pos vals hne hpl hw h
+
+theorem squeeze_wf (a r : DimArray α) (k : Option DimKey) (hw : a.WF) (h : squeeze a k = .ok r) : r.WF :=
+  C05.squeeze_wf a r k hw h
+
+/-- `repeat(values, axis)`; `newax` stands for the array of labels: no members -/
+theorem repeatAxis_wf (a r : DimArray α) (newax : Axis) (k : DimKey) (hpl : newax.members = []) (hw : a.WF)
+    (h : repeatAxis a newax k = .ok r) : r.WF := C05.repeatAxis_wf a r newax k hpl hw h
+
+/-! ### flatten / unflatten / reshape -/
+
+/-- `flatten(dims, insert)`: the shape always follows the axes (`C05.flatten_shapeOK`); the names are those of
+`C05.flatten_dims`; the result is well-formed as soon as the joined name is not the name of a remaining dimension
+(`flatten_name_clash_counterexample`; with comma-free names and at least two flattened dimensions it never is) -/
+theorem flatten_wf (a r : DimArray α) (dims : List String) (insert : Option Nat) (hw : a.WF)
+    (hfresh : ",".intercalate dims ∉ a.dims.filter (fun d => !dims.contains d))
+    (h : flatten a dims insert = .ok r) : r.WF := C05.flatten_wf a r dims insert hw hfresh h
+
+/-- `unflatten(axis)`: the shape always follows the axes; well-formed exactly when the listed names - the members'
+in place of the group's - are distinct and non-empty (`unflattenAt_name_clash_counterexample`) -/
+theorem unflattenAt_wf (a : DimArray α) (pos : Nat) (hw : a.WF)
+    (hn : NamesOK (a.dims.take pos ++ (a.axes.getD pos default).members.map (·.name) ++ a.dims.drop (pos + 1))) :
+    (unflattenAt a pos).WF := C05.unflattenAt_wf a pos hw.1 hn
+
+/-- `unflatten()`: well-formed as soon as the ungrouped names (`C05.flatNames`: the members' names for a grouped
+axis, the axis' own name otherwise) are distinct and non-empty; the result has no grouped axis left and lists
+exactly those names -/
+theorem unflattenAll_wf (a : DimArray α) (hw : a.WF) (hn : NamesOK (a.axes.flatMap C05.flatNames)) :
+    (unflattenAll a).WF ∧ PlainAxes (unflattenAll a).axes ∧ (unflattenAll a).dims = a.axes.flatMap C05.flatNames :=
+  C05.unflattenAll_wf a hw.1 hn
+
+/-- the hypothesis of `unflattenAll_wf` holds for whatever `flatten` makes of a well-formed array without grouped
+axes: flatten-then-unflatten stays well-formed -/
+theorem flatten_unflattenAll_wf (a r : DimArray α) (dims : List String) (insert : Option Nat) (hw : a.WF)
+    (hp : PlainAxes a.axes) (h : flatten a dims insert = .ok r) : (unflattenAll r).WF :=
+  (C05.unflattenAll_wf r (C05.flatten_shapeOK a r dims insert h) (C05.flatten_flatNames a r dims insert hw hp h)).1
+
+/-- `reshape(*newdims)`: a successful call returns exactly the requested names (`C05.reshape_dims`), which the
+function checks to be distinct; they must not contain the empty string (`reshape_empty_name_counterexample`) -/
+theorem reshape_wf (a r : DimArray α) (newdims : List String) (hw : a.WF) (hne : ∀ d ∈ newdims, d ≠ "")
+    (h : reshape a newdims = .ok r) : r.WF := C05.reshape_wf a r newdims hw hne h
+
+theorem alignDims_wf (arrays rs : List (DimArray α)) (hw : ∀ a ∈ arrays, a.WF) (h : alignDims arrays = .ok rs) :
+    ∀ r ∈ rs, r.WF := C05.alignDims_wf arrays rs hw h
+
+/-- `broadcast(other)`; the target's names are those of an array: non-empty -/
+theorem broadcast_wf (a r : DimArray α) (target : List Axis) (hw : a.WF) (hne : ∀ t ∈ target, t.name ≠ "")
+    (h : broadcast a target = .ok r) : r.WF := C05.broadcast_wf a r target hw hne h
+
+theorem broadcastArrays_wf (arrays rs : List (DimArray α)) (hw : ∀ a ∈ arrays, a.WF)
+    (h : broadcastArrays arrays = .ok rs) : ∀ r ∈ rs, r.WF := C05.broadcastArrays_wf arrays rs hw h
+
+/-! ### stack / concatenate -/
+
+/-- `stack(arrays, axis, keys, align)`.  The hypothesis on the name of the new dimension holds whenever `axis` is a
+non-empty string (`stack_named_wf`) and for the default name `"unnamed"` when no input has it (`stack_default_wf`);
+it fails for `axis=""` (`stack_empty_name_counterexample`) -/
+theorem stack_wf [Inhabited α] (nan : α) (arrays : List (DimArray α)) (axis : Option String) (keys : List Label)
+    (kk : Kind) (doAlign sort : Bool) (r : DimArray α) (hw : ∀ a ∈ arrays, a.WF)
+    (hname : ∀ name, checkStackAxis axis (getDims (arrays.map (·.axes))) = .ok name →
+      name ≠ "" ∧ name ∉ getDims (arrays.map (·.axes)))
+    (h : stack nan arrays axis keys kk doAlign sort = .ok r) : r.WF :=
+  C05.stack_wf nan arrays axis keys kk doAlign sort r hw hname h
+
+theorem stack_named_wf [Inhabited α] (nan : α) (arrays : List (DimArray α)) (s : String) (keys : List Label)
+    (kk : Kind) (doAlign sort : Bool) (r : DimArray α) (hw : ∀ a ∈ arrays, a.WF) (hs : s ≠ "")
+    (h : stack nan arrays (some s) keys kk doAlign sort = .ok r) : r.WF :=
+  stack_wf nan arrays (some s) keys kk doAlign sort r hw
+    (fun name hn => by obtain ⟨rfl, hf⟩ := C05.checkStackAxis_some s _ name hn; exact ⟨hs, hf⟩) h
+
+theorem stack_default_wf [Inhabited α] (nan : α) (arrays : List (DimArray α)) (keys : List Label)
+    (kk : Kind) (doAlign sort : Bool) (r : DimArray α) (hw : ∀ a ∈ arrays, a.WF)
+    (hf : "unnamed" ∉ getDims (arrays.map (·.axes)))
+    (h : stack nan arrays none keys kk doAlign sort = .ok r) : r.WF :=
+  stack_wf nan arrays none keys kk doAlign sort r hw
+    (fun name hn => by rw [C05.checkStackAxis_none _ name hf hn]; exact ⟨by decide, hf⟩) h
+
+/-- `concatenate(arrays, axis, align)` of arrays without grouped axes (the mirror does not store the tuple labels
+of a grouped axis, so the joined axis would announce no label at all: `concatenate_grouped_counterexample`) -/
+theorem concatenate_wf (nan : α) (arrays : List (DimArray α)) (axis : DimKey) (doAlign sort : Bool) (r : DimArray α)
+    (hw : ∀ a ∈ arrays, a.WF) (hp : ∀ a ∈ arrays, PlainAxes a.axes)
+    (h : concatenate nan arrays axis doAlign sort = .ok r) : r.WF :=
+  C05.concatenate_wf nan arrays axis doAlign sort r hw hp h
+
+/-! ### along-axis transforms -/
+
+/-- reductions (array results), for `axis` a name, a position or a tuple: no extra hypothesis - the grouped axis a
+tuple creates is removed again -/
+theorem reduceAxis_wf (red : List α → α) (a r : DimArray α) (ax : AxisArg) (hw : a.WF)
+    (h : reduceAxis red a ax = .ok (.inr r)) : r.WF := C05.reduceAxis_wf red a r ax hw h
+
+theorem argAxis_wf (pick : List α → List Label → α) (a r : DimArray α) (ax : AxisArg) (hw : a.WF)
+    (h : argAxis pick a ax = .ok (.inr r)) : r.WF := C05.argAxis_wf pick a r ax hw h
+
+/-- cumulative transforms; for a tuple of axes the result keeps the grouped axis, whose joined name must be fresh
+(as for `flatten`) -/
+theorem cumAxis_wf (scan : List α → α) (a r : DimArray α) (ax : AxisArg) (hw : a.WF)
+    (hg : ∀ ks names, ax = .many ks → ks.mapM (keyName a) = .ok names → C05.GroupNameFresh a names)
+    (h : cumAxis scan a ax = .ok (.inr r)) : r.WF := C05.cumAxis_wf scan a r ax hw hg h
+
+/-- `diff`: as `cumAxis_wf`, and the differenced axis is plain - or, for a grouped axis (a tuple of axes), the
+scheme is forward / backward without `keepaxis` (`diffAxis_grouped_keepaxis_counterexample`: the mirror does not
+store the labels of a grouped axis) -/
+theorem diffAxis_wf (sub : α → α → α) (nan : α) (a r : DimArray α) (ax : AxisArg) (scheme : Scheme)
+    (keepaxis : Bool) (n : Nat) (hw : a.WF)
+    (hg : ∀ ks names, ax = .many ks → ks.mapM (keyName a) = .ok names → C05.GroupNameFresh a names)
+    (hc : ∀ o pos, dealWithAxis a ax = .ok (o, some pos) →
+      (o.axes.getD pos default).members = [] ∨ (keepaxis = false ∧ scheme ≠ .centered))
+    (h : diffAxis sub nan a ax scheme keepaxis n = .ok r) : r.WF :=
+  C05.diffAxis_wf sub nan a r ax scheme keepaxis n hw hg hc h
+
+/-- the usual call: one axis, given by name or position, of an array without grouped axes -/
+theorem diffAxis_one_wf (sub : α → α → α) (nan : α) (a r : DimArray α) (k : DimKey) (scheme : Scheme)
+    (keepaxis : Bool) (n : Nat) (hw : a.WF) (hp : PlainAxes a.axes)
+    (h : diffAxis sub nan a (.one k) scheme keepaxis n = .ok r) : r.WF := by
+  refine diffAxis_wf sub nan a r (.one k) scheme keepaxis n hw (fun ks names hk => by cases hk) ?_ h
+  intro o pos hd
+  rcases C16.dealWithAxis_spec a o _ _ hd with ⟨rfl, hlt, _⟩ | ⟨_, _, hk, _, _⟩
+  · left
+    have := hlt pos rfl
+    rw [C16.axis_getD_mem _ _ this]
+    exact hp _ (List.getElem_mem this)
+  · cases hk
+
+/-! ### take_axis, compress_axis, missing values, interpolation -/
+
+theorem takeAxis_wf (a r : DimArray α) (ix : List Label) (k : DimKey) (mode : Mode) (clip : Bool) (hw : a.WF)
+    (h : takeAxis a ix k mode clip = .ok r) : r.WF := C05.takeAxis_wf a r ix k mode clip hw h
+
+theorem compressAxis_wf (a r : DimArray α) (mask : List Bool) (k : DimKey) (hw : a.WF)
+    (h : compressAxis a mask k = .ok r) : r.WF := C05.compressAxis_wf a r mask k hw h
+
+theorem dropna_wf (isnan : α → Bool) (a r : DimArray α) (k : DimKey) (minvalid : Option Nat) (hw : a.WF)
+    (h : dropna isnan a k minvalid = .ok r) : r.WF := C05.dropna_wf isnan a r k minvalid hw h
+
+theorem fillna_wf (isnan : α → Bool) (a : DimArray α) (fill : α) (fk : Kind) (hw : a.WF) :
+    (fillna isnan a fill fk).WF := hw
+
+theorem setna_wf (hit : List Nat → Bool) (nan : α) (a : DimArray α) (hw : a.WF) : (setna hit nan a).WF := hw
+
+theorem interpAxis_wf [Inhabited α] (lin : α → α → Rat → α) (a r : DimArray α) (k : DimKey) (newL : List Label)
+    (nk : Kind) (left right : α) (hw : a.WF) (h : interpAxis lin a k newL nk left right = .ok r) : r.WF :=
+  C05.interpAxis_wf lin a r k newL nk left right hw h
+
+end preservation
+
+/-! ### Datasets: every variable of the result is well-formed
+
+`DSV.DsWF ds` : every variable of `ds` is well-formed.  Two families:
+* the operations that work on the Dataset's own axes (`take`, `take_axis`, `sort_axis`, `reindex_axis`,
+  `interp_axis`, reductions) are stated on a good Dataset (`GoodDs` of C14: shared own axes, distinct keys, plain
+  axes) with well-formed variables, and return a good Dataset with well-formed variables - they compose;
+* the operations that assemble a Dataset through `__setitem__` (`Dataset(dict)`, `copy`, arithmetic, `stack_ds`,
+  `concatenate_ds`) only need well-formed variables without grouped axes, Dataset by Dataset (the inputs need not
+  be related), and return `DSV.DsOK`: well-formed variables whose axes - and the Dataset's - have as many labels as
+  their size. -/
+
+namespace DSV
+variable {α : Type}
+
+theorem DsOK.dsWF {ds : Ds α} (h : DsOK ds) : DsWF ds := C05.DsOK.wf h
+
+/-- `ds[k] = v` -/
+theorem setItem_wf (ds out : Ds α) (k : String) (v : DimArray α) (hds : DsOK ds) (hv : v.WF)
+    (hp : PlainAxes v.axes) (h : setItem ds k v = .ok out) : DsOK out :=
+  C05.setItem_ok ds out k v hds (C05.varOK_of_plain hv hp) h
+
+/-- `Dataset(dict)` -/
+theorem fromVars_wf (nan : α) (vars : List (String × DimArray α)) (out : Ds α)
+    (hin : ∀ kv ∈ vars, kv.2.WF ∧ PlainAxes kv.2.axes) (h : fromVars nan vars = .ok out) : DsOK out :=
+  C05.fromVars_ok nan vars out hin h
+
+theorem copyDs_wf (nan : α) (ds out : Ds α) (hin : ∀ kv ∈ ds.vars, kv.2.WF ∧ PlainAxes kv.2.axes)
+    (h : copyDs nan ds = .ok out) : DsOK out := C05.copyDs_ok nan ds out hin h
+
+theorem takeDs_wf (ds out : Ds α) (name : String) (ix : Ix) (cfg : IndexCfg) (hg : GoodDs ds) (hw : DsWF ds)
+    (h : takeDs ds name ix cfg = .ok out) : GoodDs out ∧ DsWF out := C05.takeDs_good ds out name ix cfg hg hw h
+
+theorem takeAxisPosDs_wf (ds out : Ds α) (name : String) (ps : List Nat) (hg : GoodDs ds) (hw : DsWF ds)
+    (h : takeAxisPosDs ds name ps = .ok out) : GoodDs out ∧ DsWF out := C05.takeAxisPosDs_good ds out name ps hg hw h
+
+theorem takeAxisLabel_wf (ds out : Ds α) (name : String) (labels : List Label) (clip : Bool) (hg : GoodDs ds)
+    (hw : DsWF ds) (h : takeAxisLabel ds name labels clip = .ok out) : GoodDs out ∧ DsWF out :=
+  C05.takeAxisLabel_good ds out name labels clip hg hw h
+
+theorem sortAxisDs_wf (ds out : Ds α) (name : String) (hg : GoodDs ds) (hw : DsWF ds)
+    (h : sortAxisDs ds name = .ok out) : GoodDs out ∧ DsWF out := C05.sortAxisDs_good ds out name hg hw h
+
+theorem reindexAxisDs_wf (ds out : Ds α) (name : String) (newL : List Label) (newKind fillKind : Kind) (fill : α)
+    (hg : GoodDs ds) (hw : DsWF ds) (h : reindexAxisDs ds name newL newKind fill fillKind = .ok out) :
+    GoodDs out ∧ DsWF out := C05.reindexAxisDs_good ds out name newL newKind fillKind fill hg hw h
+
+theorem reindexLikeDs_wf (nan : α) (ds out : Ds α) (tmpl : List Axis) (hg : GoodDs ds) (hw : DsWF ds)
+    (h : reindexLikeDs nan ds tmpl = .ok out) : GoodDs out ∧ DsWF out := C05.reindexLikeDs_good nan ds out tmpl hg hw h
+
+theorem reduceDs_wf (nan : α) (red : List α → α) (ds out : Ds α) (name : String) (hg : GoodDs ds) (hw : DsWF ds)
+    (h : reduceDs nan red ds name = .ok out) : GoodDs out ∧ DsWF out := C05.reduceDs_good nan red ds out name hg hw h
+
+theorem interpAxisDs_wf [Inhabited α] (lin : α → α → Rat → α) (ds out : Ds α) (name : String) (newL : List Label)
+    (nk : Kind) (left right : α) (hg : GoodDs ds) (hw : DsWF ds)
+    (h : interpAxisDs lin ds name newL nk left right = .ok out) : GoodDs out ∧ DsWF out :=
+  C05.interpAxisDs_good lin ds out name newL nk left right hg hw h
+
+/-- `Dataset op scalar` -/
+theorem binaryOpDs_scalar_wf (nan : α) (f : α → α → α) (self out : Ds α) (c : α)
+    (hin : ∀ kv ∈ self.vars, kv.2.WF ∧ PlainAxes kv.2.axes)
+    (h : binaryOpDs nan f self (.scalar c) = .ok out) : DsOK out := C05.binaryOpDs_scalar_ok nan f self out c hin h
+
+/-- `Dataset op Dataset` (variables: the inputs of the C04 end-to-end theorem - alignable, comma-free names) -/
+theorem binaryOpDs_ds_wf (nan : α) (f : α → α → α) (self o out : Ds α)
+    (hin1 : ∀ kv ∈ self.vars, kv.2.WF ∧ OpInput kv.2) (hin2 : ∀ kv ∈ o.vars, kv.2.WF ∧ OpInput kv.2)
+    (h : binaryOpDs nan f self (.ds o) = .ok out) : DsOK out := C05.binaryOpDs_ds_ok nan f self o out hin1 hin2 h
+
+/-- `stack_ds`; the new dimension's name must not be the empty string (as for `stack`) -/
+theorem stackDs_wf [Inhabited α] (nan : α) (datasets : List (Ds α)) (axis : Option String) (keys : List Label)
+    (kk : Kind) (out : Ds α) (hin : ∀ ds ∈ datasets, ∀ kv ∈ ds.vars, kv.2.WF ∧ PlainAxes kv.2.axes)
+    (hname : ∀ name, checkStackAxis axis (getDims (datasets.map (·.axes))) = .ok name → name ≠ "")
+    (h : stackDs nan datasets axis keys kk = .ok out) : DsOK out :=
+  C05.stackDs_ok nan datasets axis keys kk out hin hname h
+
+theorem concatenateDs_wf (nan : α) (datasets : List (Ds α)) (axis : DimKey) (out : Ds α)
+    (hin : ∀ ds ∈ datasets, ∀ kv ∈ ds.vars, kv.2.WF ∧ PlainAxes kv.2.axes)
+    (h : concatenateDs nan datasets axis = .ok out) : DsOK out := C05.concatenateDs_ok nan datasets axis out hin h
+
+/-- the two families meet: a good Dataset with well-formed variables satisfies the hypothesis of the second -/
+theorem good_inputs {ds : Ds α} (hg : GoodDs ds) (hw : DsWF ds) : ∀ kv ∈ ds.vars, kv.2.WF ∧ PlainAxes kv.2.axes :=
+  fun kv hkv => ⟨hw kv hkv, C05.good_varPlain hg hkv⟩
+
+end DSV
+
+
+/-! ### machine-checked counterexamples: why the extra hypotheses are there
+
+All of them are about the MIRROR.  dimarray builds every one of these results through `DimArray.__init__`
+(`Axes.append`: duplicate name -> ValueError; `Axis.name` setter: empty name -> ValueError; the shape check), and a
+grouped axis there has its tuple labels, so the library raises or returns a well-formed array where the mirror
+returns an ill-formed one. -/
+
+section counterexamples
+
+def cxA : DimArray Nat :=
+  { axes := [{ name := "x", labels := [.num 1, .num 2], kind := .i }]
+    vals := { shape := [2], get := fun j => j.getD 0 0 } }
+
+theorem cxA_wf : cxA.WF := ⟨rfl, by decide, by decide⟩
+
+/-- `newaxis("")`: the mirror inserts an axis without a name (Python: `Axis([None], "")` raises ValueError) -/
+theorem newaxis_empty_name_counterexample : cxA.WF ∧ ∃ r, newaxis cxA "" 0 none = .ok r ∧ ¬ r.WF := by
+  refine ⟨cxA_wf, _, rfl, ?_⟩
+  decide
+
+def cxG : Axis :=
+  { name := "g", labels := [], kind := .O, members := [{ name := "p", labels := [.num 1, .num 2], kind := .i }] }
+def cxS : DimArray Nat :=
+  { axes := [{ name := "x", labels := [.num 1], kind := .i }], vals := { shape := [1], get := fun _ => 0 } }
+
+/-- `repeat` with an `Axis` that has members: the mirror repeats `labels.length = 0` times but the stored axis
+announces size 2 (Python's `values` is an array of labels: there is nothing like it) -/
+theorem repeatAxis_grouped_counterexample : cxS.WF ∧ ∃ r, repeatAxis cxS cxG (.pos 0) = .ok r ∧ ¬ r.WF := by
+  refine ⟨⟨rfl, by decide, by decide⟩, _, rfl, ?_⟩
+  decide
+
+def cxF : DimArray Nat :=
+  { axes := [{ name := "x", labels := [.num 1, .num 2], kind := .i },
+             { name := "y", labels := [.num 1], kind := .i },
+             { name := "x,y", labels := [.num 5], kind := .i }]
+    vals := { shape := [2, 1, 1], get := fun j => j.getD 0 0 } }
+
+/-- `flatten("x", "y")` of an array that already has a dimension called `"x,y"`: two dimensions of the same name
+(Python: `Axes.append` raises ValueError) -/
+theorem flatten_name_clash_counterexample :
+    cxF.WF ∧ ∃ r, flatten cxF ["x", "y"] none = .ok r ∧ r.dims = ["x,y", "x,y"] ∧ ¬ r.WF := by
+  refine ⟨⟨rfl, by decide, by decide⟩, _, rfl, ?_, ?_⟩ <;> decide
+
+def cxU : DimArray Nat :=
+  { axes := [{ name := "a,b", labels := [], kind := .O,
+               members := [{ name := "a", labels := [.num 1, .num 2], kind := .i },
+                           { name := "b", labels := [.num 1], kind := .i }] },
+             { name := "a", labels := [.num 7], kind := .i }]
+    vals := { shape := [2, 1], get := fun j => j.getD 0 0 } }
+
+/-- `unflatten` of a group one of whose members is named like another dimension -/
+theorem unflattenAt_name_clash_counterexample :
+    cxU.WF ∧ (unflattenAt cxU 0).dims = ["a", "b", "a"] ∧ ¬ (unflattenAt cxU 0).WF := by
+  refine ⟨⟨rfl, by decide, by decide⟩, rfl, ?_⟩
+  decide
+
+/-- `reshape("", "x")`: the new singleton dimension has no name (goes through `newaxis`) -/
+theorem reshape_empty_name_counterexample :
+    cxA.WF ∧ ∃ r, reshape cxA ["", "x"] = .ok r ∧ r.dims = ["", "x"] ∧ ¬ r.WF := by
+  refine ⟨cxA_wf, ?_⟩
+  obtain ⟨r, hr, _, hd, _⟩ := reshape_add_singleton cxA [] ["x"] "" cxA_wf (by decide) rfl (by decide) (by
+    intro d hd
+    have hc : ',' ∉ d.toList := by
+      simp only [List.nil_append, List.cons_append, List.mem_cons, List.not_mem_nil, or_false] at hd
+      rcases hd with rfl | rfl <;> decide
+    exact ⟨splitOnComma_no_comma d hc, contains_comma_false d hc⟩)
+  refine ⟨r, hr, hd, ?_⟩
+  intro hw
+  have hmem : "" ∈ r.dims := by rw [hd]; simp
+  obtain ⟨ax, hax, hn⟩ := List.mem_map.mp hmem
+  exact hw.2.2 ax hax hn
+
+/-- `stack(axis="")` -/
+theorem stack_empty_name_counterexample :
+    cxA.WF ∧ ∃ r, stack 0 [cxA] (some "") [.num 0] .i false false = .ok r ∧ r.dims = ["", "x"] ∧ ¬ r.WF := by
+  refine ⟨cxA_wf, _, rfl, rfl, ?_⟩
+  decide
+
+def cxD : DimArray Int :=
+  { axes := [{ name := "x", labels := [.num 1, .num 2], kind := .i },
+             { name := "y", labels := [.num 1, .num 2], kind := .i }]
+    vals := { shape := [2, 2], get := fun j => 2 * j.getD 0 0 + j.getD 1 0 } }
+
+/-- `diff(axis=("x","y"), keepaxis=True)`: the grouped axis keeps no labels in the mirror, so the kept axis announces
+size 0 for 4 values (Python: the grouped axis carries its 4 tuple labels) -/
+theorem diffAxis_grouped_keepaxis_counterexample :
+    cxD.WF ∧ ∃ r, diffAxis (· - ·) 0 cxD (.many [.name "x", .name "y"]) .forward true 1 = .ok r ∧
+      r.vals.shape = [4] ∧ r.axes.map (·.size) = [0] ∧ ¬ r.WF := by
+  refine ⟨⟨rfl, by decide, by decide⟩, _, rfl, rfl, rfl, ?_⟩
+  decide
+
+def cxC : DimArray Nat :=
+  { axes := [{ name := "a,b", labels := [], kind := .O,
+               members := [{ name := "a", labels := [.num 1, .num 2], kind := .i },
+                           { name := "b", labels := [.num 1], kind := .i }] }]
+    vals := { shape := [2], get := fun j => j.getD 0 0 } }
+
+/-- `concatenate` along a grouped axis: same cause -/
+theorem concatenate_grouped_counterexample :
+    cxC.WF ∧ ∃ r, concatenate 0 [cxC, cxC] (.pos 0) false false = .ok r ∧
+      r.vals.shape = [4] ∧ r.axes.map (·.size) = [0] ∧ ¬ r.WF := by
+  refine ⟨⟨rfl, by decide, by decide⟩, _, rfl, rfl, rfl, ?_⟩
+  decide
+
+end counterexamples
+
+namespace DSV
+
+def cxV : DimArray Nat :=
+  { axes := [{ name := "x", labels := [.num 1, .num 2], kind := .i }, { name := "y", labels := [.num 1, .num 2], kind := .i }]
+    vals := { shape := [2, 2], get := fun j => j.getD 0 0 } }
+/-- a Dataset whose axis `y` (3 labels) is NOT the axis `y` of its variable (2 labels): impossible in dimarray
+(C13), and not a `GoodDs` -/
+def cxDs : Ds Nat :=
+  { axes := [{ name := "x", labels := [.num 1, .num 2], kind := .i },
+             { name := "y", labels := [.num 1, .num 2, .num 3], kind := .i }]
+    vars := [("a", cxV)] }
+
+/-- why the Dataset theorems ask for `GoodDs` and not only for well-formed variables: `reduce_axis` rebuilds every
+variable over the DATASET's axes -/
+theorem takeAxisPosDs_unshared_counterexample :
+    DsWF cxDs ∧ ∃ out, takeAxisPosDs cxDs "x" [0] = .ok out ∧ ¬ DsWF out := by
+  refine ⟨?_, _, rfl, ?_⟩
+  · intro kv hkv
+    simp only [cxDs, List.mem_singleton] at hkv
+    subst hkv
+    exact ⟨rfl, by decide, by decide⟩
+  · intro h
+    have := h ("a", _) (List.mem_singleton.mpr rfl)
+    revert this
+    decide
+
+end DSV
+
+/-! ### non-vacuity: successful calls on concrete well-formed inputs (`exC10`: x(2) × y(3) × z(1), Props/C10) -/
+
+section examples
+
+theorem exists_ok_and {β : Type} {x : Except Err β} {P : β → Prop} (h1 : ∃ r, x = .ok r)
+    (h2 : ∀ r, x = .ok r → P r) : ∃ r, x = .ok r ∧ P r := by
+  obtain ⟨r, hr⟩ := h1
+  exact ⟨r, hr, h2 r hr⟩
+
+example : ∃ r, take exC10 (.tuple [.scalar (.num 1), .slice none none none]) { indexing := some .position } = .ok r
+    ∧ r.WF :=
+  exists_ok_and ⟨_, rfl⟩ (fun r h => take_all_wf exC10 r _ _ exC10_wf h)
+
+example : ∃ r, put exC10 (.dict [(.name "y", .scalar (.str "c"))]) (.scalar 0) .i {} true = .ok r ∧ r.WF :=
+  exists_ok_and ⟨_, rfl⟩ (fun r h => put_wf exC10 r _ _ _ _ _ exC10_wf h)
+
+example : ∃ r, sortAxis exC10 (.name "y") = .ok r ∧ r.WF :=
+  exists_ok_and ⟨_, rfl⟩ (fun r h => sortAxis_wf exC10 r _ exC10_wf h)
+
+example : ∃ r, reindexAxis exRxA (.name "x") [.num 2, .num 3, .num 4] .i 0 .f false none = .ok r ∧ r.WF :=
+  exists_ok_and (reindexAxis_succeeds exRxA (.name "x") 0 [.num 2, .num 3, .num 4] .i .f 0 none
+    exRxA_pos (Or.inl (by decide)))
+    (fun r h => reindexAxis_wf exRxA r _ _ _ _ _ _ _ ⟨rfl, by decide, by decide⟩ h)
+
+example : ∃ rs, align 0 [exC10, exC10] .outer none false false = .ok rs ∧ ∀ r ∈ rs, r.WF :=
+  exists_ok_and ⟨_, rfl⟩ (fun rs h => align_wf 0 [exC10, exC10] rs _ _ _ _ (by simp [exC10_wf]) h)
+
+example : ∃ r, transpose exC10 (some [.name "z", .pos 0, .name "y"]) = .ok r ∧ r.WF :=
+  exists_ok_and ⟨_, rfl⟩ (fun r h => transpose_wf exC10 r _ exC10_wf h)
+
+example : ∃ r, swapaxes exC10 (.name "z") (.pos 0) = .ok r ∧ r.WF :=
+  exists_ok_and ⟨_, rfl⟩ (fun r h => swapaxes_wf exC10 r _ _ exC10_wf h)
+
+example : ∃ r, rollaxis exC10 (.name "z") 0 = .ok r ∧ r.WF :=
+  exists_ok_and ⟨_, rfl⟩ (fun r h => rollaxis_wf exC10 r _ _ exC10_wf h)
+
+example : ∃ r, newaxis exC10 "n" 1 (some { name := "q", labels := [.num 1, .num 2], kind := .i }) = .ok r ∧ r.WF :=
+  exists_ok_and ⟨_, rfl⟩ (fun r h => newaxis_wf exC10 r "n" 1 _ (by decide) (by intro v hv; cases hv; rfl) exC10_wf h)
+
+example : ∃ r, squeeze exC10 none = .ok r ∧ r.WF :=
+  exists_ok_and ⟨_, rfl⟩ (fun r h => squeeze_wf exC10 r _ exC10_wf h)
+
+example : ∃ r, repeatAxis exC10 { name := "q", labels := [.num 1, .num 2], kind := .i } (.name "z") = .ok r ∧ r.WF :=
+  exists_ok_and ⟨_, rfl⟩ (fun r h => repeatAxis_wf exC10 r _ _ rfl exC10_wf h)
+
+/-- `flatten`: the freshness hypothesis holds (`"z,x"` is not the name of the remaining dimension `y`), and
+flatten-then-unflatten is well-formed again -/
+example : ∃ r, flatten exC10 ["z", "x"] none = .ok r ∧ r.WF ∧ (unflattenAll r).WF :=
+  exists_ok_and ⟨_, rfl⟩ (fun r h => ⟨flatten_wf exC10 r ["z", "x"] none exC10_wf (by decide) h,
+    flatten_unflattenAll_wf exC10 r ["z", "x"] none exC10_wf (by decide) h⟩)
+
+example : ∃ r, stack 0 [exC10, exC10] (some "k") [.num 0, .num 1] .i false false = .ok r ∧ r.WF :=
+  exists_ok_and ⟨_, rfl⟩
+    (fun r h => stack_named_wf 0 [exC10, exC10] "k" _ _ false false r (by simp [exC10_wf]) (by decide) h)
+
+example : ∃ r, concatenate 0 [exC10, exC10] (.name "y") false false = .ok r ∧ r.WF :=
+  exists_ok_and ⟨_, rfl⟩ (fun r h => concatenate_wf 0 [exC10, exC10] _ false false r (by simp [exC10_wf])
+    (by intro a ha; simp only [List.mem_cons, List.not_mem_nil, or_false, or_self] at ha; subst ha; decide) h)
+
+/-- a reduction over a tuple of axes (the grouped axis is created and removed again) -/
+example : ∃ r, reduceAxis (fun l => l.foldl (· + ·) 0) exC10 (.many [.name "x", .pos 2]) = .ok (.inr r) ∧ r.WF :=
+  ⟨_, rfl, reduceAxis_wf (fun l => l.foldl (· + ·) 0) exC10 _ (.many [.name "x", .pos 2]) exC10_wf rfl⟩
+
+example : ∃ r, cumAxis (fun l => l.foldl (· + ·) 0) exC10 (.one (.name "y")) = .ok (.inr r) ∧ r.WF :=
+  ⟨_, rfl, cumAxis_wf (fun l => l.foldl (· + ·) 0) exC10 _ (.one (.name "y")) exC10_wf
+    (fun ks names hk => by cases hk) rfl⟩
+
+example : ∃ r, diffAxis (fun (a b : Nat) => a - b) 0 exC10 (.one (.name "y")) .backward true 2 = .ok r ∧ r.WF :=
+  exists_ok_and ⟨_, rfl⟩ (fun r h => diffAxis_one_wf _ 0 exC10 r _ _ _ _ exC10_wf (by decide) h)
+
+example : ∃ r, compressAxis exC10 [true, false, true] (.name "y") = .ok r ∧ r.WF :=
+  exists_ok_and ⟨_, rfl⟩ (fun r h => compressAxis_wf exC10 r _ _ exC10_wf h)
+
+example : ∃ r, takeAxis exC10 [.num 2, .num 0] (.name "y") .position false = .ok r ∧ r.WF :=
+  exists_ok_and ⟨_, rfl⟩ (fun r h => takeAxis_wf exC10 r _ _ _ _ exC10_wf h)
+
+/-- a cumulative transform over a tuple of axes: the result keeps the grouped axis `"x,z"`, whose name is fresh -/
+example : ∃ r, cumAxis (fun l => l.foldl (· + ·) 0) exC10 (.many [.name "x", .name "z"]) = .ok (.inr r) ∧ r.WF :=
+  ⟨_, rfl, cumAxis_wf (fun l => l.foldl (· + ·) 0) exC10 _ (.many [.name "x", .name "z"]) exC10_wf
+    (fun ks names hk hn => by
+      cases hk
+      have e : [DimKey.name "x", DimKey.name "z"].mapM (keyName exC10) = .ok ["x", "z"] := rfl
+      rw [e] at hn
+      cases hn
+      unfold C05.GroupNameFresh
+      decide) rfl⟩
+
+end examples
+
+namespace DSV
+
+theorem exDs_wf : DsWF exDs := by
+  intro kv hkv
+  simp only [exDs, List.mem_cons, List.not_mem_nil, or_false] at hkv
+  rcases hkv with rfl | rfl
+  · exact ⟨rfl, by decide, by decide⟩
+  · exact ⟨rfl, by decide, by decide⟩
+
+/-- the Dataset theorems compose: `take_axis` along `x`, then along `y`, on the concrete good Dataset of C14 -/
+example : ∃ o1 o2, takeAxisPosDs exDs "x" [2, 0] = .ok o1 ∧ takeAxisPosDs o1 "y" [1] = .ok o2 ∧
+    GoodDs o2 ∧ DsWF o2 := by
+  obtain ⟨o2, h⟩ := okKeys_some (r := takeAxisPosDs exDs "x" [2, 0] >>= fun o1 => takeAxisPosDs o1 "y" [1])
+    (ks := ["a", "b"]) (by decide)
+  obtain ⟨o1, h1, h2⟩ := C16.bind_ok h
+  obtain ⟨g1, w1⟩ := takeAxisPosDs_wf exDs o1 "x" [2, 0] exDs_good exDs_wf h1
+  exact ⟨o1, o2, h1, h2, takeAxisPosDs_wf o1 o2 "y" [1] g1 w1 h2⟩
+
+example : ∃ out, reduceDs 0 exSum exDs "x" = .ok out ∧ GoodDs out ∧ DsWF out := by
+  obtain ⟨out, hout⟩ := reduceDs_ok 0 exSum exDs "x" exDs_good (by simp [exDs, Ds.dims, exX])
+  exact ⟨out, hout, reduceDs_wf 0 exSum exDs out "x" exDs_good exDs_wf hout⟩
+
+example : ∃ out, stackDs 0 [exDs, exDs4] (some "s") [.num 0, .num 1] .i = .ok out ∧ DsWF out := by
+  obtain ⟨out, hout⟩ := okKeys_some (r := stackDs 0 [exDs, exDs4] (some "s") [.num 0, .num 1] .i)
+    (ks := ["a", "b"]) (by decide)
+  refine ⟨out, hout, (stackDs_wf 0 [exDs, exDs4] (some "s") _ _ out ?_ ?_ hout).dsWF⟩
+  · intro ds hds kv hkv
+    simp only [List.mem_cons, List.not_mem_nil, or_false] at hds
+    rcases hds with rfl | rfl
+    · exact good_inputs exDs_good exDs_wf kv hkv
+    · simp only [exDs4, List.mem_cons, List.not_mem_nil, or_false] at hkv
+      rcases hkv with rfl | rfl
+      · exact ⟨⟨rfl, by decide, by decide⟩, by decide⟩
+      · exact ⟨⟨rfl, by decide, by decide⟩, by decide⟩
+  · intro name hn
+    obtain ⟨rfl, _⟩ := C05.checkStackAxis_some "s" _ name hn
+    decide
+
+end DSV
+
+
+/-!
+### SUMMARY: function -> theorem -> hypotheses beyond "inputs well-formed, call succeeds"
+
+(`WF` = `DimArray.WF`; "plain" = `PlainAxes`: no grouped axis; CX = machine-checked counterexample above.  Every
+extra hypothesis marks a place where the MIRROR returns an ill-formed array - dimarray itself raises there, or
+returns a well-formed array, because every result is re-built by `DimArray.__init__`.)
+
+| mirror function (Lib)                | theorem                         | extra hypotheses                                                                 |
+|--------------------------------------|---------------------------------|----------------------------------------------------------------------------------|
+| `construct`                          | `construct_wf` (above)          | names accepted by `Axes.append`                                                  |
+| `take` (tuple / dict / axis=, any cfg)| `take_all_wf`                  | none  (`take_wf` above is the same fact for the specification `Spec.take`)       |
+| `takeAxisPos`                        | `takeAxisPos_wf` (above)        | none                                                                             |
+| `put`, `putBool`                     | `put_wf`, `putBool_wf`          | none                                                                             |
+| `reindexAxis`, `reindexLike`         | `reindexAxis_wf`, `reindexLike_wf` | none                                                                          |
+| `align` (every output)               | `align_wf`                      | none                                                                             |
+| `operation`, `operationNd`           | `operation_wf`, `operationNd_wf`| none                                                                             |
+| `transpose`, `swapaxes`, `rollaxis`  | `transpose_wf`, `swapaxes_wf`, `rollaxis_wf` | none                                                                |
+| `newaxis`                            | `newaxis_wf`                    | `name ≠ ""` (CX `newaxis_empty_name_counterexample`); `values` axis has no members |
+| `squeeze`                            | `squeeze_wf`                    | none                                                                             |
+| `repeatAxis`                         | `repeatAxis_wf`                 | `newax.members = []` (CX `repeatAxis_grouped_counterexample`)                    |
+| `flatten`                            | `flatten_wf`                    | joined name not a remaining dimension (CX `flatten_name_clash_counterexample`)   |
+| `unflattenAt`                        | `unflattenAt_wf`                | the listed names are distinct, non-empty (CX `unflattenAt_name_clash_counterexample`) |
+| `unflattenAll`                       | `unflattenAll_wf`               | the ungrouped names are distinct, non-empty; holds after `flatten` of a plain array (`flatten_unflattenAll_wf`) |
+| `reshape`                            | `reshape_wf`                    | no empty string among `newdims` (CX `reshape_empty_name_counterexample`)         |
+| `alignDims` (every output)           | `alignDims_wf`                  | none                                                                             |
+| `broadcast`                          | `broadcast_wf`                  | target names non-empty (they are the names of an array)                          |
+| `broadcastArrays` (every output)     | `broadcastArrays_wf`            | none                                                                             |
+| `stack`                              | `stack_wf`, `stack_named_wf`, `stack_default_wf` | new name non-empty and not a dimension of the inputs: automatic for `axis = some s`, `s ≠ ""`, and for the default `"unnamed"` when no input has it (CX `stack_empty_name_counterexample`; the fallback names `unnamed_i` are left to the hypothesis) |
+| `concatenate`                        | `concatenate_wf`                | inputs plain (CX `concatenate_grouped_counterexample`)                           |
+| `reduceAxis` (array result)          | `reduceAxis_wf`                 | none (name, position or tuple of axes)                                           |
+| `argAxis` (array result)             | `argAxis_wf`                    | none                                                                             |
+| `cumAxis` (array result)             | `cumAxis_wf`                    | for a tuple of axes: joined name fresh (as `flatten`)                            |
+| `diffAxis`                           | `diffAxis_wf`, `diffAxis_one_wf`| as `cumAxis`; differenced axis plain, or forward/backward without keepaxis (CX `diffAxis_grouped_keepaxis_counterexample`) |
+| `sortAxis`, `takeAxis`, `compressAxis`, `dropna` | `sortAxis_wf`, `takeAxis_wf`, `compressAxis_wf`, `dropna_wf` | none                                 |
+| `fillna`, `setna`                    | `fillna_wf`, `setna_wf`         | none                                                                             |
+| `interpAxis`                         | `interpAxis_wf`                 | none                                                                             |
+| `DSV.setItem`                        | `DSV.setItem_wf`                | Dataset under construction `DsOK`; value well-formed and plain                   |
+| `DSV.fromVars`, `DSV.copyDs`         | `DSV.fromVars_wf`, `DSV.copyDs_wf` | variables well-formed and plain                                               |
+| `DSV.takeDs`, `takeAxisPosDs`, `takeAxisLabel`, `sortAxisDs`, `reindexAxisDs`, `reindexLikeDs`, `reduceDs`, `interpAxisDs` | `DSV.<fn>_wf` | `GoodDs ds` (C14: shared own axes) and `DsWF ds`; conclusion `GoodDs out ∧ DsWF out` (CX `DSV.takeAxisPosDs_unshared_counterexample`: well-formed variables alone are not enough) |
+| `DSV.binaryOpDs` (scalar)            | `DSV.binaryOpDs_scalar_wf`      | variables well-formed and plain                                                  |
+| `DSV.binaryOpDs` (Dataset)           | `DSV.binaryOpDs_ds_wf`          | variables well-formed and `OpInput` (C14: alignable, comma-free names)           |
+| `DSV.stackDs`                        | `DSV.stackDs_wf`                | variables well-formed and plain; new name non-empty                              |
+| `DSV.concatenateDs`                  | `DSV.concatenateDs_wf`          | variables well-formed and plain                                                  |
+-/
 
 end DimModel
